@@ -59,7 +59,8 @@ def confirm(seed: Path):
         rc2, out2 = sh(f"{PY} -m pytest -q -p no:cacheprovider -x --deselect tests/test_table.py::test_table_from_methods 2>&1 | tail -3", wt, timeout=900)
         tail = out2.strip().splitlines()[-1] if out2.strip() else ""
         log.append(f"suite with the patch: {tail}")
-        if "76 passed" not in tail or "failed" in tail:
+        import re as _re
+        if "76 passed" not in tail or _re.search(r"\b\d+ (failed|error)", tail):
             return sid, False, "suite changed: " + tail
         return sid, True, log
     except Exception as e:
